@@ -10,7 +10,7 @@ THEOREMS = {
     "C02": ["lin_statistics", "stat_linear", "gram_accumulates", "k1_counterexample", "k1_lambda_one", "linucb_columns",
             "reshape_rowwise", "squeeze_counterexample", "fitRec_append",
             "toV_mulVec", "toM_matMul", "toM_ident", "inverse_certificate", "beta_unique_solution", "toM_addGram",
-            "toV_addXty", "ridge_closed_form", "linucb_bonus_quadratic_form", "scaleRow_unfitted", "scaleRow_fitted"],
+            "toV_addXty", "ridge_closed_form", "linucb_bonus_quadratic_form", "scaleRow_unfitted", "scaleRow_fitted", "linear_history_closed_form"],
     "C03": ["radius_exact", "euclid_via_squares", "knn_override_valid", "nanInv_init", "nanInv_addArm", "nanInv_removeArm",
             "empty_nhood_exps", "nhood_from_scratch", "fit_discards", "knn_valid", "sorted_pairs"],
     "C04": ["noninterference_private", "shared_default_counterexample", "world_step_deterministic", "private_copy_frame"],
@@ -68,7 +68,7 @@ THEOREMS = {
 
 IMPORTS = {
     "C01": ["MabModel.Props.C01"],
-    "C02": ["MabModel.Props.C02", "MabModel.Props.C02b"],
+    "C02": ["MabModel.Props.C02", "MabModel.Props.C02b", "MabModel.Props.C02c"],
     "C03": ["MabModel.Props.C03"],
     "C04": ["MabModel.Props.C04"],
     "C05": ["MabModel.Props.C05", "MabModel.Props.C05b", "MabModel.Props.C05c", "MabModel.Props.C05d"],
